@@ -117,11 +117,15 @@ func (sm *Subscriptions) ProcessWhen(activated, deactivated S) []chan struct{} {
 	// TODO optimize by skipping
 	ret := sm.processWhenCtx()
 
-	// collect matched bindings
+	// pass 1: update the per-binding flags and counters for every touched
+	// state
 	all := slices.Concat(activated, deactivated)
+	var touched []*WhenBinding
 	for _, s := range all {
-		// TODO optimize clone
-		for _, binding := range slices.Clone(sm.when[s]) {
+		for _, binding := range sm.when[s] {
+			if !slices.Contains(touched, binding) {
+				touched = append(touched, binding)
+			}
 
 			if slices.Contains(activated, s) {
 
@@ -158,17 +162,21 @@ func (sm *Subscriptions) ProcessWhen(activated, deactivated S) []chan struct{} {
 				// update index: mark as inactive
 				binding.States[s] = false
 			}
-
-			// if not all matched, ignore for now
-			expired := binding.Ctx != nil && binding.Ctx.Err() != nil
-			if binding.Matched < binding.Total && !expired {
-				continue
-			}
-
-			// completed - rm binding and collect ch
-			sm.gcWhenBinding(binding, true)
-			ret = append(ret, binding.Ch)
 		}
+	}
+
+	// pass 2: completion is judged on the final flags only (a transition
+	// which activates one state and deactivates another never had both)
+	for _, binding := range touched {
+		// if not all matched, ignore for now
+		expired := binding.Ctx != nil && binding.Ctx.Err() != nil
+		if binding.Matched < binding.Total && !expired {
+			continue
+		}
+
+		// completed - rm binding and collect ch
+		sm.gcWhenBinding(binding, true)
+		ret = append(ret, binding.Ch)
 	}
 
 	return ret
